@@ -11,7 +11,7 @@ SRC = [os.path.join(ROOT, "engine", "trapvm", f) for f in ("c12.c", "trapvm.c", 
 
 
 def build():
-    common.cc(BIN, SRC[:2], ["-O1", "-g", "-Wall", "-Wno-unused-function", "-pthread"], deps=SRC[2:])
+    common.cc(BIN, SRC[:2], ["-O1", "-g", "-Wall", "-Wno-unused-function", "-pthread", "-rdynamic"], deps=SRC[2:])
     return BIN
 
 
@@ -19,7 +19,7 @@ def run(tier, deadline):
     t0 = time.time()
     build(); catcheck.build_harness()
     lib = vbuild.build("prod")
-    env = dict(os.environ, CAT_LIB=lib)
+    env = dict(os.environ, CAT_LIB=lib, C12_TMPDIR=os.path.join(ROOT, "build", "trapvm"))
     ops = subprocess.run([BIN, "list"], capture_output=True, text=True).stdout.split()
     viol = {}
     internal = []
@@ -112,7 +112,7 @@ def run(tier, deadline):
 def replay(kv, quiet=False):
     build(); catcheck.build_harness()
     lib = vbuild.build("prod")
-    env = dict(os.environ, CAT_LIB=lib)
+    env = dict(os.environ, CAT_LIB=lib, C12_TMPDIR=os.path.join(ROOT, "build", "trapvm"))
     case = kv["case"]
     if case.startswith("replay "):
         r = subprocess.run([BIN, "quick"] + case.split(), capture_output=True, text=True, env=env)
